@@ -112,19 +112,19 @@ def run_case(scn, drv):
         val = -float(np.dot(rec['op'].c, x))
         if worst > 1e-5 or abs(val - V) > tol:
             viol('%s: the solution, rearranged asset by asset, is not an optimal solution of the original problem (violates %s by %.3g; value %.8g vs %.8g)' % (tag, what, worst, val, V), variant=tag, what='transport')
-        # per-asset cash flows up to relabelling (unique when the optimum is unique; compare totals only when dispatch agrees)
+        # per-asset cash flows up to relabelling: the cash flow reported under the new label equals minus the cost of the
+        # asset's own variables (costs of the ORIGINAL problem, solution of the variant) - independent of ties
         try:
-            d0 = rec['out']['DCF']
             d1 = rv['out']['DCF']
             ao = rec['portf'].assets
-            xs = transport_back(rv, rec, order)
-            if np.allclose(xs, rec['res'].x, atol=1e-6 * max(1.0, np.abs(xs).max())):
-                for k, a in enumerate(rv['portf'].assets):
-                    t0 = float(d0[ao[order[k]].name].sum())
-                    t1 = float(d1[a.name].sum())
-                    if abs(t0 - t1) > tol:
-                        viol('%s: same dispatch but cash flow of asset %r is %.8g, was %.8g under the original labels' % (tag, a.name, t1, t0), variant=tag, what='dcf')
-                        break
+            bo = pf.asset_blocks(rec)
+            for k, a in enumerate(rv['portf'].assets):
+                lo, hi = bo[ao[order[k]].name][0]
+                want = -float(np.dot(rec['op'].c[lo:hi], x[lo:hi]))
+                got = float(d1[a.name].sum())
+                if abs(want - got) > 1e-6 * max(1.0, abs(V), abs(want)):
+                    viol('%s: cash flow reported for asset %r is %.8g but its own variables cost %.8g' % (tag, a.name, got, -want), variant=tag, what='dcf')
+                    break
         except Exception as e:
             viol('%s: reading the output raises %s' % (tag, type(e).__name__), variant=tag, what='output_raises')
     r['nontrivial'] = V is not None and nA >= 3 and abs(V) > 1e-9
